@@ -34,6 +34,7 @@ import (
 	"sync"
 
 	"verifmc/internal/ev"
+	"verifmc/internal/nohb"
 )
 
 // kase is one enumerated value of a type.
@@ -282,6 +283,10 @@ func less3(a, b [4]int) bool {
 }
 
 func main() {
+	if nohb.IsWorker() {
+		nohb.WorkerMain(reentrantOps(), reentrantRepoDir())
+		return
+	}
 	ev.Main("C33", "model_checking", func(c *ev.Ctx) {
 		if c.Replay != nil {
 			replay(c)
@@ -445,6 +450,7 @@ func main() {
 		c.Set("excluded_types", excluded)
 		c.Set("deviation_bound", devBound(c.Tier))
 
+		reentrantPhase(c)
 		// a few samples: one encoding per family
 		for _, name := range []string{"tls.CipherSuiteID", "json.DHParams", "x509.GeneralNames", "x509.GeneralSubtreeIP", "pkix.Name (parsed from RDNSequence)", "ct.DigitallySigned"} {
 			for _, s := range specs {
